@@ -1863,6 +1863,51 @@ def run(ctx: Context):
                 return True
             ids = _cache.setdefault(cs.tail, {id(x.call) for x in cg.calls_named(cs.tail) if x.fn.name != "<module>"})
             return id(cs.call) not in ids
+        def owner_of(q):
+            mod, _, path = q.partition(":")
+            return mod + ":" + path.rsplit(".", 1)[0] if "." in path else mod + ":"
+
+        def outside_chain(f_, allowed, depth=4):
+            """None when f_ is a helper split out of an allowed step of the chain: it is defined beside an allowed
+            function (same class, or same module for a plain function), is called somewhere, and every call of / reference
+            to its name in the whole package sits in an allowed function or in another such helper - so control still
+            reaches the guarded callee only through the allowed step.  Otherwise the reason (a string) why it is not."""
+            full = [a if a.startswith("allmydata") else "allmydata." + a for a in allowed]
+
+            def admitted(q):
+                return any(q == a or q.startswith(a + ".") for a in full)
+
+            def grounded(g, seen, depth):
+                # -> (True, None) every way into g starts in an allowed function; (None, None) only cycles; (False, reason)
+                while g.parent is not None:
+                    g = g.parent          # a closure / lambda runs on behalf of the function that builds it
+                if admitted(g.qual):
+                    return True, None
+                if g.qual in seen:
+                    return None, None
+                if g.name == "<module>" or owner_of(g.qual) not in {owner_of(a) for a in full}:
+                    return False, "%s is not part of %s" % (short(g) if ":" in g.qual else g.qual,
+                                                             " / ".join(sorted({owner_of(a).rstrip(":") for a in full})))
+                if depth <= 0:
+                    return False, "helper chain above %s deeper than the bound" % short(g)
+                users = [cs.fn for cs in cg.calls_named(g.name) if real_site(cs)]
+                if not users:
+                    return False, "%s has no static caller (an entry point of its own)" % short(g)
+                users += [f2 for (f2, nd) in cg.refs_named(g.name) if not isinstance(nd, ast.Name)]
+                some = None
+                for u in users:
+                    v, why = grounded(u, seen | {g.qual}, depth - 1)
+                    if v is False:
+                        return False, "%s is also used by %s; %s" % (short(g), short(u) if ":" in u.qual else u.qual, why)
+                    if v:
+                        some = True
+                return some, None
+
+            v, why = grounded(f_, frozenset(), depth)
+            if v:
+                return None
+            return " (%s)" % (why or "%s is only reached from itself" % short(f_))
+
         for (tail, allowed, filt) in table:
             bad, badrefs, total = callers_outside(
                 idx, tail, allowed, recv_filter=lambda cs, _f=filt: real_site(cs) and (_f is None or _f(cs)))
@@ -1870,11 +1915,19 @@ def run(ctx: Context):
                 raise AnchorVanished("no caller of %s found" % tail)
             r.site("callers of %s: %d" % (tail, total))
             for cs in bad:
-                r.violation(cs.fn, cs.loc, "%s calls %s outside the guarded read-test-write chain" % (short(cs.fn), tail))
+                why = outside_chain(cs.fn, allowed)
+                if why is None:
+                    r.count(1)
+                    continue
+                r.violation(cs.fn, cs.loc, "%s calls %s outside the guarded read-test-write chain%s" % (short(cs.fn), tail, why))
             for (f_, nd) in badrefs:
                 if tail in ("create", "writev"):
                     continue
-                r.violation(f_, f_.loc(nd), "%s takes %s as a value" % (short(f_), tail))
+                why = outside_chain(f_, allowed)
+                if why is None:
+                    r.count(1)
+                    continue
+                r.violation(f_, f_.loc(nd), "%s takes %s as a value%s" % (short(f_), tail, why))
 
     # -- 8. all-or-nothing across the shares of one request ----------------------------
     agree = {}      # request error -> (early raise statements, data vector index, late raising nodes): compared by C24.12
